@@ -20,6 +20,8 @@
 
    Definitions only. *)
 From Coq Require Import List NArith Bool Arith.
+From Coq Require String.
+Import String.StringSyntax.
 From MevVerif Require Import lib.Bytes gen.Generated.
 Import ListNotations.
 Open Scope N_scope.
@@ -179,8 +181,24 @@ Definition count_ga (w : world) : world :=
 Inductive variant := Current | V0.
 
 (* which one is deployed is read off the source on every run (gen/Generated.v) *)
+(* [Current] needs: handleConnectReq calls beginHandshake(peerID) AND invokes its result in the same
+   expression ([s.beginHandshake(peerID)()] -- the extractor does not record the [defer] keyword
+   itself), registers with addPeer, and the wrapper calls waitHandshake(peerID) between exactly two
+   getPeer(peerID) lookups *)
+(* ... and that call is DEFERRED ([defer_calls] anchor) and is the second top-level statement of
+   handleConnectReq, right after the peer id is read and before anything is read from the stream *)
+Definition handle_defers_begin : bool :=
+  existsb (bytes_eqb (bos "s.beginHandshake(peerID)()")) c20_handle_defers &&
+  match c20_handle_top with
+  | [_; st] => bytes_eqb st (bos "defer s.beginHandshake(peerID)()")
+  | _ => false
+  end.
+Definition connect_defers_begin : bool :=
+  existsb (bytes_eqb (bos "s.beginHandshake(addrInfo.ID)()")) c20_connect_defers.
 Definition deployed : variant :=
-  if c20_begin_in_handle && c20_wait_in_wrapper && c20_register_in_handle then Current else V0.
+  if c20_begin_in_handle && c20_begin_invoked_in_handle && c20_wait_in_wrapper &&
+     c20_register_in_handle && Nat.eqb (length c20_wrapper_getpeer_args) 2 && handle_defers_begin
+  then Current else V0.
 
 (* ---- initiator: Service.Connect -> handshake.Handshake -> NewStream ------------------ *)
 Definition fail_i (w : world) : world := set_ipc IFailed (set_i_closed w).
@@ -465,7 +483,8 @@ Definition mrun_from (ob : bool) (c : cfg) (m : mworld) (sched : list mwho) : mw
 Definition mrun (ob : bool) (c : cfg) (sched : list mwho) : mworld := mrun_from ob c minit sched.
 
 (* is the outbound bracket in the source?  (gen/Generated.v) *)
-Definition ob_deployed : bool := c20_begin_in_connect.
+Definition ob_deployed : bool :=
+  c20_begin_in_connect && c20_begin_invoked_in_connect && connect_defers_begin.
 
 (* canonical schedules of the correspondence check: B is held just before addPeer (it has
    written its final message), A finishes its side, connects back through the shortcut and opens
